@@ -1062,4 +1062,89 @@ def rule_factor(ctx):
     return r
 
 
-RULES = [rule_costfn, rule_dp, rule_enum, rule_cap, rule_sorted, rule_factor]
+def rule_options(ctx):
+    """(seed C09_7) 'All trees when outer products are searched' / 'for each supported objective': the options a
+    caller passes reach the dynamic programme as given.  In the optimal finders of the processor the parameters
+    `search_outer` and `minimize` are never re-bound (the documented widening of `cost_cap` is the only option that
+    changes); every delegate call hands them on unchanged."""
+    r = RuleResult("C09-OPTIONS", "the caller's objective and outer-product option reach the DP as given", 3)
+    cp = ctx.p.cls(C.BASIC, "ContractionProcessor")
+    funcs = [cp.methods.get("optimize_optimal_connected"), cp.methods.get("optimize_optimal"), ctx.p.func(C.BASIC, "optimize_optimal")]
+    C.require(all(f is not None for f in funcs), "optimal finders not found")
+    for f in funcs:
+        params = [a.arg for a in f.node.args.posonlyargs + f.node.args.args + f.node.args.kwonlyargs]
+        for opt in ("search_outer", "minimize"):
+            if opt not in params:
+                continue
+            k = ctx.key(f, "C09-OPTIONS", opt)
+            rebinds = []
+            for n in walk_local(f.node):
+                tg = []
+                if isinstance(n, ast.Assign):
+                    tg = n.targets
+                elif isinstance(n, (ast.AugAssign, ast.AnnAssign)):
+                    tg = [n.target]
+                elif isinstance(n, ast.NamedExpr):
+                    tg = [n.target]
+                for t in tg:
+                    for e in ast.walk(t):
+                        if isinstance(e, ast.Name) and e.id == opt:
+                            val = getattr(n, "value", None)
+                            # a normalisation of the objective's spelling (`minimize = minimize.lower()`) keeps the question
+                            if opt == "minimize" and isinstance(n, ast.Assign) and val is not None and \
+                                    any(isinstance(x, ast.Name) and x.id == opt for x in ast.walk(val)) and not C.enclosing_ifs(f, n):
+                                continue
+                            rebinds.append(n)
+            # delegates receive the option itself
+            passed_bad = None
+            for c in (x for x in walk_local(f.node) if isinstance(x, ast.Call)):
+                for kw in c.keywords:
+                    if kw.arg == opt and not (isinstance(kw.value, ast.Name) and kw.value.id == opt):
+                        passed_bad = kw
+            if rebinds:
+                g = [C.unparse(i_.test, 60) for i_, t in C.enclosing_ifs(f, rebinds[0])]
+                r.violation(k, C.loc(f, rebinds[0]), f"`{C.unparse(rebinds[0], 60)}`" + (f" under `{g[0]}`" if g else "") +
+                            f": the caller's `{opt}` is replaced before the search — the result is optimal for another question "
+                            "(e.g. over outer-product-free trees only although outer products were asked for)")
+            elif passed_bad is not None:
+                r.violation(k, C.loc(f, passed_bad.value), f"`{opt}={C.unparse(passed_bad.value, 50)}` handed to a delegate instead of the caller's value")
+            else:
+                r.ok(k, f.loc, f"`{opt}` is never re-bound and handed on as given")
+    return r
+
+
+def rule_presimp(ctx):
+    """(seed C09_6) The property's premise — nothing to pre-simplify — makes `simplify()` a no-op only if each
+    simplification fires exactly in the situation the premise names.  'An index shared by all tensors': the batch
+    test compares the number of *tensors carrying* the index (the per-index entry of `edges`) with the number of
+    tensors; the appearance table also counts the output, so testing it removes an output index that one tensor
+    lacks, a vector over it becomes a scalar and a contraction is forced before the DP runs."""
+    r = RuleResult("C09-PRESIMP", "the batch-index simplification fires only for an index on every tensor", 1)
+    cp = ctx.p.cls(C.BASIC, "ContractionProcessor")
+    f = cp.methods.get("simplify_batch")
+    C.require(f is not None, "simplify_batch not found")
+    fl = ctx.flow(f)
+    k = ctx.key(f, "C09-PRESIMP", "batch")
+    cmps = [n for n in walk_local(f.node) if isinstance(n, ast.Compare) and len(n.ops) == 1 and isinstance(n.ops[0], (ast.GtE, ast.Eq, ast.Gt, ast.LtE, ast.Lt))]
+    C.require(cmps, "simplify_batch: the test that selects an index not found")
+    c = cmps[0]
+    at = fl.node_of_expr(c)
+    dl = fl.deps(c.left, at, "may")
+    dr = fl.deps(c.comparators[0], at, "may")
+
+    def attrs(d):
+        return {x[2] for x in d if x[0] == "attr"} | {x[1] for x in d if x[0] == "attrname"}
+    al, ar_ = attrs(dl), attrs(dr)
+    if isinstance(c.ops[0], (ast.LtE, ast.Lt)):
+        al, ar_ = ar_, al
+    if "appearances" in al | ar_:
+        r.violation(k, C.loc(f, c), f"`{C.unparse(c)}` counts appearances — the output included — instead of the tensors carrying the index: an "
+                    "output index that one tensor lacks is dropped from all others, although the network has no index shared by all tensors")
+    elif "edges" in al and "nodes" in ar_ and not isinstance(c.ops[0], (ast.Gt, ast.Lt)):
+        r.ok(k, C.loc(f, c), "number of tensors carrying the index (edges) against the number of tensors (nodes)")
+    else:
+        r.violation(k, C.loc(f, c), f"`{C.unparse(c)}`: not a comparison of the index's carriers (`edges`) with the number of tensors (`nodes`)")
+    return r
+
+
+RULES = [rule_options, rule_presimp, rule_costfn, rule_dp, rule_enum, rule_cap, rule_sorted, rule_factor]
